@@ -776,5 +776,6 @@ func runC09(c *gen.Ctx) error {
 		}
 	}
 	c09PeerGen(c)
+	c09SiteGen(c)
 	return nil
 }
